@@ -57,6 +57,21 @@ def main(argv):
         rc = finish(ctx, mod.LEVEL, mod.EXPLANATION, cmd, t0, seed)
         return rc
     except AnalysisError as e:
+        from sa.repo import PlumbingViolation
+        about = {"allow_list": ("C18",), "blur_usage": ("C16", "C18")}
+        if isinstance(e, PlumbingViolation) and prop in about.get(e.role, ()):
+            # the property is about this option, and the option is not wired
+            mod = importlib.import_module("sa.rules.%s" % prop.lower())
+            ctx = Ctx(e.model, prop, tier)
+            rule = "R%s.plumb" % prop[1:]
+            ctx.rule(rule, "the command-line option reaches the Server slot that the "
+                     "behaviour is conditioned on")
+            ctx.ob(rule, "option --%s reaches the server" % e.key, False,
+                   "src/wormhole_mailbox_server/server_tap.py", "no constructor slot of Server "
+                   "is fed from config[%r]: the option the operator sets does not control "
+                   "what the server does (%s)" % (e.key, e.detail))
+            cmd = "python3 sa/check.py %s --tier %s" % (prop, tier)
+            return finish(ctx, mod.LEVEL, mod.EXPLANATION, cmd, t0, seed)
         print("ANALYSIS-ERROR property=%s %s" % (prop, e))
         return 2
     except Exception:
